@@ -1,4 +1,5 @@
 import ConcVerif.Proof.SOH
+import ConcVerif.Proof.SOHLive
 /-! # C17 — SearchableObjectHolder is an atomic, memory-safe name-to-object map
 
 Model: `Model/SOH.lean`.  `Maps` mirrors the two `std::map`s of the class (association lists with
@@ -519,5 +520,68 @@ example : ∃ s, Reachable s ∧ s.gone = true ∧ s.maps = Maps.empty ∧ s.pc 
         (0, .mul), (0, .yld), (0, .mlk), (0, .mul), (0, .slp), (0, .mlk), (0, .mul), (0, .yld), (0, .mlk),
         (0, .mul), (0, .slp), (0, .mlk), (0, .mul), (0, .yld), (0, .mlk), (0, .mul), (0, .slp), (0, .mlk),
         (0, .mul), (0, .yld), (0, .mlk), (0, .mul)], rfl⟩, by decide, by decide, by decide⟩
+
+/-! ## Liveness: every call returns — for every scheduler
+
+Environment events (`isEnv`, Proof/SOHLive.lean): `call`, `callD`, the client dropping a reference (`rel`),
+the payload destructor (`pdt`) and the tap observation `mac`; every other event is a step of the library
+(`mlk`, each predicate invocation `pcl` of a scan, `uth`, `mul`, `ret`/`exc`, the destructor's retry loop).
+* `C17_terminates` (no livelock): an execution that makes no environment event from some point on cannot be
+  infinite, whatever the scheduler does.  Two-level rank: first "has not taken `mapLock` yet" (other calls may
+  still enlarge the map a waiting scan will walk), then the remaining work inside the critical section —
+  `pend.length + 3`, the predicate invocations being bounded by the map as it is when the lock is taken — and
+  `3·(7 − c) + …` for the destructor's at most 7 retry rounds.
+* `C17_progress` / `C17_stuck_all_returned` (no deadlock): a reachable state without enabled library step has
+  every thread returned, except calls racing with the completed destructor (use after destruction).
+Not covered: starvation of one caller by infinitely many calls of others under an unfair mutex. -/
+
+theorem C17_terminates (x : Live.Exec step) (N : Nat) (ts : List Tid) (hnd : ts.Nodup)
+    (hts : ∀ n, N ≤ n → x.who n ∈ ts) (hnc : ∀ n, N ≤ n → isEnv (x.ev n) = false) : False :=
+  Live.no_infinite_run_lex rankedLex ts hnd x N trivial hts hnc
+
+/-- inside one critical section the number of remaining library steps is fixed at the lock acquisition: it is
+the number of predicate invocations of the scan over the map as it is then, plus at most 3 -/
+theorem C17_cs_work_fixed_at_lock {s s' : St} {t : Tid} {op : Op} (hp : s.pc t = .called op)
+    (hs : step s t .mlk = some s') : μ s' t = (predCalls s.maps op).length + 3 := by
+  have htr := step_tr hs
+  cases htr <;> simp_all [μ, St.setPc, upd, Pc.rank]
+
+/-- deadlock-freedom: if some thread is inside a call, some thread has an enabled library step — unless the
+holder has been destroyed and every thread still inside a call is a call that raced with the destructor -/
+theorem C17_progress {s : St} (h : Reachable s) {t : Tid} (ht : s.pc t ≠ .idle) :
+    (∃ u, LibEnabled s u) ∨ (s.gone = true ∧ ∃ op, s.pc t = .called op) := by
+  have hi := inv_reachable h
+  cases hl : s.lock with
+  | some u => exact Or.inl ⟨u, holder_lib hi hl⟩
+  | none =>
+    rcases free_lib hi hl t with h1 | h1 | h1
+    · exact absurd h1 ht
+    · exact Or.inl ⟨t, h1⟩
+    · exact Or.inr h1
+
+/-- a reachable state without enabled library step: every thread has returned, except calls made after the
+holder's destructor completed -/
+theorem C17_stuck_all_returned {s : St} (h : Reachable s) (hstuck : ∀ u, ¬ LibEnabled s u) (t : Tid) :
+    s.pc t = .idle ∨ (s.gone = true ∧ ∃ op, s.pc t = .called op) := by
+  by_cases ht : s.pc t = .idle
+  · exact Or.inl ht
+  · rcases C17_progress h ht with ⟨u, hu⟩ | h1
+    · exact absurd hu (hstuck u)
+    · exact Or.inr h1
+
+/-- … in particular while the holder is alive: no enabled library step ⇒ every thread is idle -/
+theorem C17_stuck_all_returned_alive {s : St} (h : Reachable s) (hg : s.gone = false)
+    (hstuck : ∀ u, ¬ LibEnabled s u) (t : Tid) : s.pc t = .idle := by
+  rcases C17_stuck_all_returned h hstuck t with h1 | ⟨h1, _⟩
+  · exact h1
+  · rw [hg] at h1; cases h1
+
+/-- non-vacuity: thread 1 is inside a removing scan with one predicate invocation to come (rank 4), thread 2
+waits for `mapLock` and cannot take it; thread 1 has an enabled library step -/
+example : ∃ s, Reachable s ∧ s.pc 1 = .cs (.rp ⟨.always, 0⟩) (.bool true) [1] ∧ μ s 1 = 4 ∧ α s 2 = 1 ∧
+    step s 2 .mlk = none ∧ LibEnabled s 1 :=
+  ⟨_, ⟨[(1, .call (.add 1 1)), (1, .mlk), (1, .mul), (1, .ret (.bool true)), (2, .call (.find 1)),
+        (1, .call (.rp ⟨.always, 0⟩)), (1, .mlk)], rfl⟩,
+   by decide, by decide, by decide, by decide, ⟨.pcl 1, rfl, by decide⟩⟩
 
 end ConcVerif.SOH
